@@ -76,6 +76,7 @@ class Analyzer:
         self.methods = {}      # decl id -> (name, is_const, parent record name)
         self.uses = []         # (function, kind, name, line)
         self.records = {}      # record decl id -> name
+        self.this_mode = False # True while scanning a member function of Circuit itself
         self.line = 0
 
     # ---------- declarations
@@ -107,6 +108,8 @@ class Analyzer:
 
     def is_mut_circuit_expr(self, n):
         k = n.get("kind")
+        if k == "CXXThisExpr":
+            return self.this_mode and bool(re.fullmatch(r"(class\s+)?(coloquinte::)?Circuit\s*\*", qt(n).strip()))
         if n.get("valueCategory") != "lvalue":
             return False
         if k == "DeclRefExpr":
@@ -191,20 +194,39 @@ class Analyzer:
                 if p.get("opcode") in ("++", "--"):
                     return self.add(fn, "UWrite", fieldname, chain[idx])
                 return self.add(fn, "UOther", fieldname, chain[idx])
+            if pk == "VarDecl" and str(p.get("name", "")).startswith("__range"):
+                # `for (decl : field)`: a read when the loop variable is a copy or a reference to const
+                for a in reversed(chain[:x - 1]):
+                    if a.get("kind") == "CXXForRangeStmt":
+                        lv = None
+                        for c in a.get("inner", []) or []:
+                            if isinstance(c, dict) and c.get("kind") == "DeclStmt":
+                                for v in c.get("inner", []) or []:
+                                    if isinstance(v, dict) and v.get("kind") in ("VarDecl", "DecompositionDecl") and not str(v.get("name", "")).startswith("__"):
+                                        lv = v
+                        if lv is not None:
+                            t = lv.get("type", {}).get("qualType", "")
+                            if "&" not in t or t.strip().startswith("const"):
+                                return self.add(fn, "URead", fieldname, chain[idx])
+                        break
+                return self.add(fn, "UOther", fieldname, chain[idx])
             return self.add(fn, "UOther", fieldname, chain[idx])
 
     def classify_circuit_use(self, fn, chain, idx):
         """chain[idx] is a mutable-Circuit lvalue expression; chain[:idx] its ancestors (root first)"""
         e = chain[idx]
         x = idx
-        while x > 0 and chain[x - 1].get("kind") in TRANSPARENT:
-            x -= 1
+        while x > 0 and (chain[x - 1].get("kind") in TRANSPARENT or
+                         (e.get("kind") == "CXXThisExpr" and chain[x - 1].get("kind") == "UnaryOperator" and chain[x - 1].get("opcode") == "*")):
+            x -= 1   # `*this` denotes the same mutable circuit
         if x == 0:
             return self.add(fn, "UUnknown", "circuit expression statement", e)
         p = chain[x - 1]
         cur = chain[x]
         pk = p.get("kind")
         if pk == "ImplicitCastExpr" and p.get("castKind") == "NoOp" and (qt(p).startswith("const") or is_const_circuit_type(qt(p))):
+            if self.this_mode and x >= 2 and chain[x - 2].get("kind") == "MemberExpr" and chain[x - 2].get("name") == "checkNotInUse":
+                return self.add(fn, "UGuard", "checkNotInUse", chain[x - 2])
             return  # const view: cannot modify
         if pk == "MemberExpr":
             if p.get("type", {}).get("qualType", "") == "<bound member function type>":
@@ -290,6 +312,26 @@ def function_defs(objs, main_file):
     return out
 
 
+def circuit_access_specs(objs):
+    """decl id and name of every member function declared in class Circuit -> 'public' / 'protected' / 'private'"""
+    acc = {}
+    for o in objs:
+        for w in walk(o):
+            if w.get("kind") == "CXXRecordDecl" and w.get("name") == "Circuit" and w.get("completeDefinition"):
+                cur = "private" if w.get("tagUsed") == "class" else "public"
+                for c in w.get("inner", []) or []:
+                    if not isinstance(c, dict):
+                        continue
+                    if c.get("kind") == "AccessSpecDecl":
+                        cur = c.get("access", cur)
+                    elif c.get("kind") in ("CXXMethodDecl", "FunctionTemplateDecl"):
+                        acc[c.get("id")] = cur
+                        # overloads share a name: the most permissive access wins (conservative for the guard rule)
+                        if acc.get(c.get("name")) != "public":
+                            acc[c.get("name")] = cur
+    return acc
+
+
 def in_main_file(n, src):
     """clang prints 'file' only when it changes; function definitions of the .cpp come last in the dump. We accept a
     definition when its range mentions no other file or the .cpp itself."""
@@ -320,6 +362,7 @@ def translate(repo):
     if not srcs:
         raise TranslateError("no sources under %s/src" % repo)
     uses, nfun = [], 0
+    methods = {}
     seen = set()
     from concurrent.futures import ThreadPoolExecutor
     with ThreadPoolExecutor(max_workers=8) as ex:
@@ -330,9 +373,26 @@ def translate(repo):
             an.index_decls(o)
         for o in objs:   # second pass: out-of-line definitions seen before their class id was known
             an.index_decls(o)
+        access = circuit_access_specs(objs)
         for name, d in function_defs(objs, src):
-            if name.startswith("Circuit::") or name == "Circuit":
-                continue  # the API itself
+            if name.startswith("Circuit::"):
+                # the API itself: second table (which member functions write what, and whether they are guarded)
+                if d.get("isImplicit") or d.get("kind") in ("CXXConstructorDecl", "CXXDestructorDecl"):
+                    continue
+                mname = name[len("Circuit::"):]
+                is_const = bool(re.search(r"\)\s*const\b", d.get("type", {}).get("qualType", "")))
+                an.this_mode, an.uses = True, []
+                for c in d.get("inner", []) or []:
+                    if isinstance(c, dict):
+                        an.scan_body(name, c, [])
+                an.this_mode = False
+                key = (mname, d.get("type", {}).get("qualType", ""))
+                if key not in methods:
+                    methods[key] = {"name": mname, "const": is_const, "public": access.get(d.get("previousDecl") or d.get("id"), access.get(mname, "private")) == "public",
+                                    "uses": sorted(set(an.uses), key=lambda u: (u[3], u[1], u[2]))}
+                continue
+            if name == "Circuit":
+                continue
             nfun += 1
             an.uses = []
             for c in d.get("inner", []) or []:
@@ -350,6 +410,9 @@ def translate(repo):
     if not any(u[1] == "UWrite" for u in uses):
         raise TranslateError("no write to the circuit found at all: the source does not have the shape this translator understands")
     uses.sort(key=lambda u: (u[0], u[3], u[1], u[2]))
+    if not methods:
+        raise TranslateError("no member function of Circuit found")
+    translate.methods = [methods[k] for k in sorted(methods)]
     return uses, nfun, len(srcs)
 
 
@@ -364,7 +427,57 @@ def coq_text(uses, nfun, nsrc):
     body = ["  mkU %s %s %s %d" % (s(fn), kind, s(name), line) for fn, kind, name, line in uses]
     lines.append(";\n".join(body))
     lines.append("].")
+    lines += ["", "(* member functions of Circuit itself (constructors excluded): public?, const?, line of the first call of",
+              "   checkNotInUse() (0 = none), fields written / used in an unclassified way (with the line), own non-const",
+              "   member functions called *)",
+              "Definition circuit_methods : list cmethod := ["]
+    mb = []
+    for m in getattr(translate, "methods", []):
+        guard = min([u[3] for u in m["uses"] if u[1] == "UGuard"] or [0])
+        wr = [(u[2] if u[1] != "UUnknown" else "?" + u[2], u[3]) for u in m["uses"] if u[1] in ("UWrite", "UOther", "UUnknown")]
+        calls = sorted(set(u[2] for u in m["uses"] if u[1] == "UCallNC"))
+        mb.append("  mkM %s %s %s %d [%s] [%s]" % (s(m["name"]), "true" if m["public"] else "false", "true" if m["const"] else "false", guard,
+                                                   "; ".join("(%s, %d)" % (s(f), l) for f, l in wr), "; ".join(s(c) for c in calls)))
+    lines.append(";\n".join(mb))
+    lines.append("].")
     return "\n".join(lines) + "\n"
+
+
+STRUCTURAL = ("netLimits_", "pinCells_", "pinXOffsets_", "pinYOffsets_", "rows_", "cellIsFixed_", "cellIsObstruction_", "cellRowPolarity_")
+MODELLED_SETTERS = {"addNet": True, "setNets": True, "setRows": True, "setupRows": True, "setCellIsFixed": True, "setCellIsObstruction": True,
+                    "setCellRowPolarity": True, "setCellX": False, "setCellY": False, "setCellOrientation": False, "setCellWidth": False,
+                    "setCellHeight": False, "setNetWeights": False, "setSolution": False}
+
+
+def offending_methods(methods):
+    """independent replica of CircuitAccess.circuit_methods_okb, used only to NAME what the Coq theorem rejects"""
+    bad = []
+    for m in methods:
+        if m["const"]:
+            continue
+        guard = min([u[3] for u in m["uses"] if u[1] == "UGuard"] or [0])
+        wr = [(u[2], u[3]) for u in m["uses"] if u[1] in ("UWrite", "UOther", "UUnknown")]
+        first = guard != 0 and all(guard < l for _, l in wr)
+        if any(f in STRUCTURAL for f, _ in wr) and not first:
+            bad.append("Circuit::%s changes %s %s" % (m["name"], sorted(set(f for f, _ in wr if f in STRUCTURAL)),
+                                                   "without calling checkNotInUse()" if guard == 0 else "before its call of checkNotInUse() (line %d)" % guard))
+        if m["name"] in MODELLED_SETTERS:
+            if MODELLED_SETTERS[m["name"]] != (guard != 0):
+                bad.append("Circuit::%s: guard in the source = %s, in the model (Api.guarded) = %s" % (m["name"], guard != 0, MODELLED_SETTERS[m["name"]]))
+            elif guard != 0 and not first:
+                bad.append("Circuit::%s writes before its call of checkNotInUse()" % m["name"])
+        else:
+            if guard != 0:
+                bad.append("Circuit::%s calls checkNotInUse() but is not a setter of the model" % m["name"])
+            allowed = ("isInUse_",) if m["name"] in ("placeGlobal", "legalize", "placeDetailed", "place") else \
+                      ("cellWidth_",) if m["name"] in ("expandCellsToDensity", "expandCellsByFactor") else ()
+            extra = sorted(set(f for f, _ in wr if f not in allowed))
+            if extra:
+                bad.append("Circuit::%s (not one of the model's setters) writes %s" % (m["name"], extra))
+    for n in MODELLED_SETTERS:
+        if not any(m["name"] == n and m["public"] and not m["const"] for m in methods):
+            bad.append("the model's setter %s is not a public non-const member function of Circuit any more" % n)
+    return bad
 
 
 def write_gen(path, txt):
@@ -395,4 +508,6 @@ if __name__ == "__main__":
     else:
         for u in uses:
             print("%-55s %-8s %-28s %d" % u)
+        for m in translate.methods:
+            print("METHOD %-28s public=%s const=%s %s" % (m["name"], m["public"], m["const"], [(u[1], u[2], u[3]) for u in m["uses"]]))
         print("# %d uses in %d function definitions of %d translation units" % (len(uses), nfun, nsrc))
